@@ -1,10 +1,15 @@
 //! Contains device specific options of AVRA-rs
 
-use maplit::{btreeset, hashmap};
-use std::{
-    collections::{BTreeSet, HashMap},
-    sync::LazyLock,
+#[cfg(avra_verif)]
+use crate::{
+    vmap::{BTreeSet, HashMap},
+    vmap_btreeset as btreeset, vmap_hashmap as hashmap,
 };
+#[cfg(not(avra_verif))]
+use maplit::{btreeset, hashmap};
+#[cfg(not(avra_verif))]
+use std::collections::{BTreeSet, HashMap};
+use std::sync::LazyLock;
 
 #[derive(Clone, PartialEq, Eq, PartialOrd, Ord, Debug)]
 pub enum DisabledOptions {
